@@ -157,17 +157,17 @@ class World:
             if c.cookie is None:
                 return (0, "(skipped: no session)", False)
             st, b = c.add(act[2], CODE[x], "Naive")
-            return st, b, st == 200
+            return st, b, st // 100 == 2
         if kind == "add-anon":
             old = c.cookie
             c.cookie = None
             st, b = c.add(act[2], CODE[x], "Hybrid")
             if c.cookie is None:
                 c.cookie = old
-            return st, b, st == 200
+            return st, b, st // 100 == 2
         if kind == "solve":
             st, b = c.solve(act[2], "Ground")
-            return st, b, st == 200
+            return st, b, st // 100 == 2
         if kind == "get":
             return c.get(act[2]) + (False,)
         if kind == "list":
@@ -180,7 +180,7 @@ class World:
             return c.list(with_cookie=False) + (False,)
         if kind == "anon-solve":
             st, b = c.solve(act[2], "Ground", with_cookie=False)
-            return st, b, st == 200
+            return st, b, st // 100 == 2
         if kind == "anon-delete":
             return c.delete(act[2], with_cookie=False) + (False,)
         raise MachineryError("unknown action %r" % (act,))
@@ -246,13 +246,13 @@ class World:
                         m["session"][x] = n
             nbody = self.normalise(body)
             obs = (st, nbody)
-            ok = st == 200
+            ok = st // 100 == 2
             # ---- clause 1 / 3
             if MARK[y] in body:
                 self.v("leak:foreign-problem-in-response", "the response to %s for %r contains the other client's problem (status %s)" % (x, act, st), hist + [act])
             if kind.startswith("anon-"):
-                if st != 401:
-                    self.v("unauthenticated:not-refused", "%r without a session answered %s instead of 401" % (act, st), hist + [act])
+                if st // 100 == 2:
+                    self.v("unauthenticated:not-refused", "%r without a session was accepted (status %s)" % (act, st), hist + [act])
                 if MARK["A"] in body or MARK["B"] in body:
                     self.v("unauthenticated:data", "%r without a session returned problem data" % (act,), hist + [act])
             # ---- model update + clause 4
